@@ -151,10 +151,12 @@ def semantic_oracle(fn, meta: dict, input_sets, stats: Counter) -> list[dict]:
     [{voices:{...}, what, feeds, attrs}]; an empty list means all voices agree on all inputs."""
     failures = []
     has_attr = bool(meta["attrs"])
+    # to_model_proto exports a function whose attribute parameters all have defaults (with the defaults)
+    exportable = all(len(a) > 2 and a[2] is not None for a in meta["attrs"])
     rets = meta["rets"]
     sessions = {}
     model_err = None
-    if not has_attr:
+    if exportable:
         try:
             out_types = [_Ty(type_proto(t, meta["shape"])) for _, t in rets]
             for tp in out_types:
@@ -178,7 +180,7 @@ def semantic_oracle(fn, meta: dict, input_sets, stats: Counter) -> list[dict]:
         except Exception as e:
             voices["eager"] = f"ERR {type(e).__name__}: {str(e)[:120]}"
         # 3. model proto on onnxruntime
-        if not has_attr:
+        if exportable and not attrs:
             if model_err:
                 voices["model"] = "ERR " + model_err
             else:
@@ -567,7 +569,8 @@ def split_known(run: core.Run, failures: list[dict], findings: dict) -> list[dic
     rest = []
     seen: Counter = Counter()
     for f in failures:
-        known = [k for k in gen.classify_known(f["meta"]["src"]) + f["meta"].get("finding_ids", []) if k in findings]
+        known = [k for k in gen.classify_known(f["meta"]["src"]) + f["meta"].get("finding_ids", []) if k in findings
+                 and (k not in gen.FAILURE_FILTER or any(t in f["what"] for t in gen.FAILURE_FILTER[k]))]
         if known:
             seen[known[0]] += 1
             if seen[known[0]] == 1:
@@ -627,6 +630,7 @@ def main(run: core.Run) -> None:
     extra = [gen.closure_program(run.rng, f"c{k}") for k in range(run.size(60, 400))]
     extra += [gen.mixed_opset_program(run.rng, f"m{k}") for k in range(run.size(24, 160))]
     nests = [gen.shrinking_nest_program(run.rng, f"t{k}") for k in range(run.size(30, 240))]
+    extra += [gen.name_collision_program(run.rng, f"u{k}") for k in range(run.size(40, 300))]
     seen_src = set()
     extra = [m for m in extra if not (m["src"] in seen_src or seen_src.add(m["src"]))]
     for k in range(0, len(extra), 20):
